@@ -41,9 +41,14 @@ SOp_ == /\ Ev.op = "sop"
 SClone_ == Ev.op = "sclone" /\ Ev.id = Len(objs) + 1 /\ Push(Obj(Ev.t))
 Keccak_ == Ev.op = "keccak" /\ Ev.out = KeccakFBytes(Ev.in) /\ UNCHANGED objs
 
+Step == Reset \/ New_ \/ Append_ \/ Extract_ \/ Clone_ \/ Rekey_ \/ Finalize_ \/ Read_ \/ SNew_ \/ SOp_ \/ SClone_ \/ Keccak_
+\* a rejected event is reported and the rest of its history skipped: validation resumes at the next "reset" / "keccak" event
+NextStart == LET js == {j \in (l + 1)..Len(Trace) : Trace[j].op \in {"reset", "keccak"}} IN IF js = {} THEN Len(Trace) + 1 ELSE CHOOSE j \in js : \A k \in js : j <= k
 TraceInit == l = 1 /\ objs = <<>>
 TraceNext == /\ l <= Len(Trace)
-             /\ l' = l + 1
-             /\ (Reset \/ New_ \/ Append_ \/ Extract_ \/ Clone_ \/ Rekey_ \/ Finalize_ \/ Read_ \/ SNew_ \/ SOp_ \/ SClone_ \/ Keccak_)
+             /\ \/ l' = l + 1 /\ Step
+                \/ /\ ~ENABLED Step
+                   /\ PrintT(<<"REJECT", l, Ev.seq>>)
+                   /\ l' = NextStart /\ objs' = <<>>
 Spec == TraceInit /\ [][TraceNext]_<<l, objs>>
 =============================================================================
